@@ -162,14 +162,23 @@ def run_op(opname, fixture, plan, do_post=False):
         ps.process_iter.cache_clear()
         pr = ps.Process(pid)
         base = len(vk.log)
+        esrch_links = any(spec[1] == "opt:readlink_esrch" for spec in plan)
         for spec in plan:
             k, action = spec[0], spec[1]
+            if action.startswith("opt:"):
+                continue            # a marker, not an event
             target = spec[2] if len(spec) > 2 else pid
 
             def act(vk_, kind, path, action=action, target=target, k=k):
                 fired.append((k, action, kind, path))
                 if action == "vanish":
                     t.remove(target)
+                    if esrch_links:
+                        # kernels that answer readlink() on a link of a task that is gone with ESRCH rather than ENOENT
+                        # (upstream issue #503; the library says it caters for both)
+                        pfx = f"/vproc/{target}/"
+                        vk_.rules.append(lambda kind_, path_: ProcessLookupError(errno.ESRCH, "No such process", path_)
+                                         if kind_ == "readlink" and path_.startswith(pfx) else None)
                     return None
                 if action == "othercall":
                     # what another thread of the program might be doing right now: the same kind of call for everybody /
@@ -385,6 +394,9 @@ def cases_for(opname, fixture, tier):
         for k in own:
             plans.append([(k, "EACCES")])
             plans.append([(k, "EPERM")])
+        if any(kind == "readlink" for kind, _ in trace):
+            for k in range(n):
+                plans.append([(k, "vanish"), (-1, "opt:readlink_esrch")])
         if opname in TREE_OPS:
             for rel in (60, 40, 70):
                 for k in range(n):
